@@ -192,6 +192,31 @@ def data_status_order():
     return pairs
 
 
+def load_order():
+    """TransitData::loadAllData: (update call, tolerates a missing file), in call order; every call is followed by an early
+    `return DataStatus::DATA_READ_ERROR` on a negative return (other than -ENOENT when tolerant)"""
+    td = strip_comments(src("src/transit_data.cpp"))
+    b = function_body(td, r"DataStatus\s+TransitData::loadAllData\s*\(\s*\)\s*")
+    calls = re.findall(r"ret\s*=\s*(update\w+)\(\)\s*;\s*if\s*\(\s*ret\s*<\s*0\s*(&&\s*ret\s*!=\s*-ENOENT\s*)?\)\s*\{\s*return\s+DataStatus::DATA_READ_ERROR\s*;\s*\}", b)
+    if len(calls) < 8: raise ValueError("loadAllData: only %d guarded update calls recognised" % len(calls))
+    if len(calls) != len(re.findall(r"\bupdate\w+\(\)", b)): raise ValueError("loadAllData: an update call without the recognised guard")
+    if not re.search(r"return\s+getDataStatus\(\)\s*;\s*$", b.strip().rstrip("}").strip()): raise ValueError("loadAllData does not end with getDataStatus()")
+    return [(fn, bool(tol)) for fn, tol in calls]
+
+
+def loader_catch_facts():
+    """per cache fetcher: the deserialisation is inside try, with a handler for kj::Exception and one for everything else"""
+    facts = {}
+    for f in ("agencies", "services", "nodes", "lines", "paths", "scenarios", "trips_and_connections", "data_sources", "persons", "od_trips"):
+        t = strip_comments(src("src/%s_cache_fetcher.cpp" % f))
+        has_try = bool(re.search(r"\btry\s*\{", t))
+        kj = bool(re.search(r"catch\s*\(\s*const\s+kj::Exception\s*&", t))
+        rest = bool(re.search(r"catch\s*\(\s*\.\.\.\s*\)", t)) or bool(re.search(r"catch\s*\(\s*const\s+std::exception\s*&", t))
+        m = re.search(r"PackedFdMessageReader", t); tr = re.search(r"\btry\s*\{", t)
+        facts["loader_%s_reads_inside_try_catch_all" % f] = has_try and kj and rest and bool(m) and bool(tr) and tr.start() < m.start()
+    return facts
+
+
 def structural_facts():
     facts = {}
     cc = strip_comments(src("src/connection_cache.cpp"))
@@ -286,7 +311,11 @@ def main():
     dso = guard("data-status-order", data_status_order, [])
     L += ["/-- TransitData::getDataStatus: (collection tested for emptiness, status), in if-chain order; READY when none is empty -/",
           "def dataStatusOrder : List (String × String) := " + llist(dso, lambda x: "(%s, %s)" % (lstr(x[0]), lstr(x[1]))), ""]
+    lo = guard("load-order", load_order, [])
+    L += ["/-- TransitData::loadAllData: (update call, a missing file is tolerated), in call order; a hard failure returns early -/",
+          "def loadOrder : List (String × Bool) := " + llist(lo, lambda x: "(%s, %s)" % (lstr(x[0]), "true" if x[1] else "false")), ""]
     facts = guard("structural-facts", structural_facts, {})
+    facts.update(guard("loader-catch-facts", loader_catch_facts, {}))
     L += ["/-- structural facts read off the source (see translator/extract.py) -/",
           "def facts : List (String × Bool) := " + llist(sorted(facts.items()), lambda x: "(%s, %s)" % (lstr(x[0]), "true" if x[1] else "false")), ""]
     L += ["end Tr.Gen", ""]
